@@ -219,7 +219,7 @@ def ensure_cache(log=print):
 # running one harness
 # --------------------------------------------------------------------------
 CHECK_RE = re.compile(
-    r"^Check (\d+): (\S+)\n\t - Status: (\w+)\n\t - Description: \"(.*)\"\n\t - Location: (.*)$",
+    r"^Check (\d+): (.+)\n\t - Status: (\w+)\n\t - Description: \"(.*)\"\n\t - Location: (.*)$",
     re.M)
 
 
@@ -256,10 +256,28 @@ class Result:
         return d
 
 
+VERBATIM_RANGES = []   # (first_line, last_line) of pasted repository code inside verif_kani.rs
+
+
+def set_verbatim_ranges(src):
+    del VERBATIM_RANGES[:]
+    start = None
+    for n, line in enumerate(src.split("\n"), 1):
+        if "// ---- verbatim" in line:
+            start = n
+        elif "// ---- end of verbatim block" in line and start is not None:
+            VERBATIM_RANGES.append((start, n))
+            start = None
+
+
 def classify_failed(chk_id, desc, loc):
     """Which role does a failed CBMC check play?  (DESIGN.md §3.4 rule 6)"""
     in_repo = "regexml/src/" in loc and "verif_kani.rs" not in loc
     in_harness = "verif_kani.rs" in loc
+    m = re.search(r"verif_kani\.rs:(\d+):", loc)
+    if m and any(a <= int(m.group(1)) <= b for a, b in VERBATIM_RANGES):
+        # repository code pasted verbatim into a generated slice
+        in_repo, in_harness = True, False
     if "unwinding assertion" in desc or ".unwind." in chk_id or "recursion" in desc:
         if in_repo:
             return "unwind-repo"
@@ -338,7 +356,7 @@ def run_harness(h, repo_dir, target_dir, tier, logdir, playback=False):
             res.failed.append({"check": name, "description": desc, "location": loc.strip(),
                                "class": classify_failed(name, desc, loc)})
     verdict = re.search(r"VERIFICATION:- (\w+)", out)
-    if "Out of memory" in out or "std::bad_alloc" in out or re.search(r"CBMC failed with status", out):
+    if "Out of memory" in out or "ran out of memory" in out or "std::bad_alloc" in out or re.search(r"CBMC failed with status", out):
         res.reason = "CBMC error / out of memory"
         return res
     if not verdict:
@@ -385,7 +403,7 @@ def run_harness(h, repo_dir, target_dir, tier, logdir, playback=False):
 # --------------------------------------------------------------------------
 def unit_playback(res, repo_dir):
     """Append the generated unit test to the scratch harness file and run it
-    natively (dev and release).  Returns dict(reproduced=bool, ...)."""
+    natively (dev profile, which is the profile Kani models).  Returns dict(reproduced=bool, ...)."""
     out = {"kind": "kani-concrete-playback", "reproduced": False}
     if not res.playback_src:
         out["note"] = "Kani produced no concrete playback test"
@@ -401,34 +419,39 @@ def unit_playback(res, repo_dir):
     path = os.path.join(repo_dir, "regexml/src/verif_kani.rs")
     with open(path, "a") as f:
         f.write("\n#[cfg(test)]\nmod verif_playback_%s {\n    use super::*;\n%s\n}\n" % (tname, src))
-    for profile in ("dev", "release"):
-        cmd = ["cargo", "kani", "playback", "-Z", "concrete-playback"]
-        if profile == "release":
-            cmd.append("--release")
-        cmd += ["--", tname]
-        env = dict(ENV)
-        env["CARGO_TARGET_DIR"] = os.path.join(os.path.dirname(repo_dir), "playback-target")
-        try:
-            r = subprocess.run(cmd, cwd=os.path.join(repo_dir, "regexml"), env=env, text=True,
-                               stdout=subprocess.PIPE, stderr=subprocess.STDOUT, timeout=900)
-            txt = r.stdout
-            rc = r.returncode
-        except subprocess.TimeoutExpired as e:
-            txt = (e.stdout or b"").decode(errors="replace") if isinstance(e.stdout, bytes) else (e.stdout or "")
-            rc = "timeout"
-        ran = re.search(r"running 1 test", txt) is not None
-        failed = "test result: FAILED" in txt or "panicked at" in txt
-        if rc == "timeout" and ran:
-            out[profile] = "hang (native run exceeded watchdog)"
-            out["reproduced"] = True
-        elif ran and failed:
-            pm = re.search(r"panicked at ([^\n]*)\n([^\n]*)", txt)
-            out[profile] = "panic: " + (pm.group(1) + " " + pm.group(2) if pm else "?")
-            out["reproduced"] = True
-        elif ran:
-            out[profile] = "test passed (not reproduced in this profile)"
-        else:
-            out[profile] = "playback could not run: " + txt[-600:]
+    env = dict(ENV)
+    env["CARGO_TARGET_DIR"] = os.path.join(os.path.dirname(repo_dir), "playback-target")
+    cwd = os.path.join(repo_dir, "regexml")
+    base = ["cargo", "kani", "playback", "-Z", "concrete-playback"]
+    # 1. build the test binary (a filter that matches nothing runs no test)
+    b = sh(base + ["--", "verif_no_such_test_zz"], cwd=cwd, env=env)
+    if b.returncode != 0 and "running 0 tests" not in b.stdout:
+        out["dev"] = "playback build failed: " + b.stdout[-800:]
+        return out
+    # 2. run the one test under a watchdog (a hang is a reproduction of an
+    #    unwinding-assertion failure)
+    watchdog = int(os.environ.get("VERIF_PLAYBACK_WATCHDOG", "90"))
+    try:
+        r = subprocess.run(base + ["--", tname], cwd=cwd, env=env, text=True, stdout=subprocess.PIPE,
+                           stderr=subprocess.STDOUT, timeout=watchdog, start_new_session=True)
+        txt, rc = r.stdout, r.returncode
+    except subprocess.TimeoutExpired as e:
+        txt = e.stdout.decode(errors="replace") if isinstance(e.stdout, bytes) else (e.stdout or "")
+        rc = "timeout"
+        sh("pkill -f playback-target/ || true")
+    ran = "running 1 test" in txt
+    failed = "test result: FAILED" in txt or "panicked at" in txt
+    if rc == "timeout":
+        out["dev"] = "hang: native run of the counterexample exceeded the %ds watchdog" % watchdog
+        out["reproduced"] = True
+    elif ran and failed:
+        pm = re.search(r"panicked at ([^\n]*)\n([^\n]*)", txt)
+        out["dev"] = "panic: " + (pm.group(1) + " | " + pm.group(2) if pm else "?")
+        out["reproduced"] = True
+    elif ran:
+        out["dev"] = "test passed natively (counterexample NOT reproduced)"
+    else:
+        out["dev"] = "playback could not run: " + txt[-600:]
     return out
 
 
@@ -533,6 +556,7 @@ def main():
             return 3
         with open(os.path.join(repo_dir, "regexml/src/verif_kani.rs"), "w") as f:
             f.write(src)
+        set_verbatim_ranges(src)
         cache = ensure_cache()
         jobs = max(1, min(a.jobs, len(sel)))
         q = queue.Queue()
